@@ -20,7 +20,7 @@ RULE = ("cases: trees with windows at every level. non-trivial: in some windowed
         "digest")
 ASSUMPTIONS = RT_ASSUMPTIONS
 
-PROFILE = S.GENERAL.but(p_rerun=8, 
+PROFILE = S.GENERAL.but(p_block=6, p_rerun=8, 
     windows=((None, 1), (1, 4), (2, 4), (3, 3), (4, 1)), p_edge=18, max_members=6,
     max_jobs=16, p_raise=22, p_critical=25, p_nested=24, p_forever=10, p_wild=20,
     cs=((0, 3), (1, 2), (2, 1)))
